@@ -89,6 +89,8 @@ func main() {
 		return
 	case "prebuild":
 		os.Exit(doPrebuild())
+	case "shimconf":
+		os.Exit(doShimconf(args[1:]))
 	}
 	id := args[0]
 	tier := os.Getenv("VERIF_TIER")
@@ -168,6 +170,28 @@ func build(p *propCfg, dir string, race bool) (string, int) {
 		return "", 2
 	}
 	return bin, 0
+}
+
+// doShimconf builds and runs the shim conformance self-test (DESIGN.md §4).
+func doShimconf(extra []string) int {
+	dir, err := scratchDir()
+	if err != nil {
+		fmt.Fprintln(os.Stderr, err)
+		return 3
+	}
+	defer os.RemoveAll(dir)
+	p := &propCfg{ID: "SHIMCONF", Harness: "shimconf", Instr: "namepool"}
+	bin, rc := build(p, dir, false)
+	if rc != 0 {
+		return rc
+	}
+	cmd := exec.Command(bin, extra...)
+	cmd.Env = env()
+	cmd.Stdout, cmd.Stderr = os.Stdout, os.Stderr
+	if err := cmd.Run(); err != nil {
+		return 1
+	}
+	return 0
 }
 
 func doPrebuild() int {
